@@ -47,6 +47,11 @@ type BodyM struct {
 type AttrM struct {
 	Name string `json:"name"`
 	Expr string `json:"expr"` // native expression syntax
+	// JSON rendering as a native JSON array / object of sub-expressions (Expr
+	// then is the equivalent tuple / object constructor)
+	JList []string `json:"jlist,omitempty"`
+	JKeys []string `json:"jkeys,omitempty"`
+	JVals []string `json:"jvals,omitempty"`
 }
 
 type BlockM struct {
